@@ -29,7 +29,7 @@ PROPS = {
     "C03": dict(
         title="Offset, DST flag and abbreviation for an instant match the TZ data",
         verus=["tzif", "posix", ("posix", "_static", STATIC)],
-        kani_quick=["c17_tzif", "c03_tzdt"], kani_thorough=[],
+        kani_quick=["c17_tzif", "c03_tzdt", "c17_posix", "c18_designation", "c03_posix_wrappers"], kani_thorough=[],
         design_ref="DESIGN.md section 4, C03",
     ),
     "C04": dict(
@@ -41,7 +41,7 @@ PROPS = {
     "C14": dict(
         title="Transition iterators yield exactly the instants where zone offset info changes",
         verus=["tzif", "posix", ("posix", "_static", STATIC)],
-        kani_quick=[], kani_thorough=[],
+        kani_quick=["c03_posix_wrappers"], kani_thorough=[],
         design_ref="DESIGN.md section 4, C14",
     ),
     "C10": dict(
@@ -72,13 +72,13 @@ PROPS = {
         title="All ways of loading a time zone give the same zone",
         verus=["posix", ("posix", "_static", STATIC)],
         all_fns=True,
-        kani_quick=["c17_tzif"], kani_thorough=[],
+        kani_quick=["c17_tzif", "c18_designation"], kani_thorough=[],
         design_ref="DESIGN.md section 4, C18",
         level_text="Narrow claim: the two copies of the shared time-zone core (src/shared/** used by jiff and the generated crates/jiff-static/src/shared/** used by the static-zone macros) each satisfy the SAME functional contracts (result == spec(args)) for the calendar core and the POSIX rule evaluation, hence agree with each other on every input; a drift in either copy fails a named obligation. Database back-ends, proc-macro expansion and slim/fat zic output are not covered (DESIGN.md section 4, C18).",
     ),
     "C05": dict(
         title="Fallible operations return errors: no panics, no out-of-range results",
-        verus=["posix", "tzif", "rounders", "sdur", "zoned", "span", "civiladd", "civildiff", "ambig", "isoweek", "spanround", "zonedround", "tsarith", "offround", "dtdiff"],
+        verus=["posix", "tzif", "rounders", "sdur", "zoned", "span", "civiladd", "civildiff", "ambig", "isoweek", "spanround", "zonedround", "tsarith", "offround", "dtdiff", "zoneddiff"],
         all_fns=True,
         kani_quick=["c01_civil", "c02_wrappers"],
         kani_thorough=["c10_model"],
@@ -101,15 +101,15 @@ PROPS = {
     ),
     "C07": dict(
         title="Differences are reversible, balanced and sign-consistent for every largest unit",
-        verus=["civildiff", "tsarith", "dtdiff"],
+        verus=["civildiff", "tsarith", "dtdiff", "zoneddiff"],
         kani_quick=[], kani_thorough=["c10_model"],
         design_ref="DESIGN.md section 4, C07",
-        level_text="Date differences (Date::until/since, DateDifference::since_with_largest_unit) for every pair of dates and every largest unit: the result equals an explicit specification diff_spec, is reversible w.r.t. the C08 addition semantics, sign-consistent, has no unit above the largest and is balanced; panic-free. Timestamp and Time differences (until/since on the rounding-free configuration, duration_until/duration_since) for every pair and every largest unit: result == the exact nanosecond distance balanced up to the largest unit, reversible, one sign, exact Err condition (unit tsarith). Civil DateTime differences (unit dtdiff: DateTimeDifference::until_with_largest_unit, DateTime::until/since on the rounding-free configuration, duration_until/since) for every pair and every largest unit: result == explicit spec (date difference with the one-day borrow joined with the balanced time remainder), a + s == b through the C08 addition contract (composition harness verif_c07_roundtrip), one sign, nothing above the largest unit, balanced up to the month-end clamping exception that Temporal also has; exact Err condition. Zoned differences are NOT decided by this check (Zoned::until has the open finding F7).",
+        level_text="Date differences (Date::until/since, DateDifference::since_with_largest_unit) for every pair of dates and every largest unit: the result equals an explicit specification diff_spec, is reversible w.r.t. the C08 addition semantics, sign-consistent, has no unit above the largest and is balanced; panic-free. Timestamp and Time differences (until/since on the rounding-free configuration, duration_until/duration_since) for every pair and every largest unit: result == the exact nanosecond distance balanced up to the largest unit, reversible, one sign, exact Err condition (unit tsarith). Civil DateTime differences (unit dtdiff: DateTimeDifference::until_with_largest_unit, DateTime::until/since on the rounding-free configuration, duration_until/since) for every pair and every largest unit: result == explicit spec (date difference with the one-day borrow joined with the balanced time remainder), a + s == b through the C08 addition contract (composition harness verif_c07_roundtrip), one sign, nothing above the largest unit, balanced up to the month-end clamping exception that Temporal also has; exact Err condition. Zoned differences (unit zoneddiff: ZonedDifference::until_with_largest_unit, Zoned::until/since, rounding-free configuration, for every zone satisfying the C03/C04 contracts): exact Err condition, exact result in every branch, nothing above the largest unit, carry limits, since == negated until, and -- whenever the intermediate civil date does not lie on the other side of the start's date -- round trip through the C06 addition, one sign and balance; the two panics, the unconditional sign/round-trip clauses and the day-balance clause FAIL and are the open findings F7, F19, F23.",
     ),
     "C09": dict(
         title="Datetimes print to RFC 3339/9557 text that parses back to the same value",
         verus=[],
-        kani_quick=["c09_printer"], kani_thorough=[],
+        kani_quick=["c09_printer", "c17_offset"], kani_thorough=[],
         design_ref="DESIGN.md section 4, C09",
         level_text="Narrow claim: the offset part of the Temporal printer on the real code, for every offset in -93599..=93599 s: print_offset_rounded emits sign HH:MM with MM <= 59 denoting |offset| rounded to the nearest minute, print_offset_full_precision emits the exact offset (loop-free up to the 2-digit writers, unwinding complete: full-domain proofs). The print->parse identity of whole datetimes, IANA-name lookup and serde are NOT decided (byte-string printers/parsers exceed CBMC at useful buffer sizes and are outside Verus' subset; DESIGN.md section 4, C09).",
     ),
@@ -130,7 +130,7 @@ PROPS = {
     "C17": dict(
         title="Parsers are total: arbitrary input gives Ok or Err, and Ok values are sane",
         verus=["tzif", "posix"],
-        kani_quick=["c17_tzif"], kani_thorough=[],
+        kani_quick=["c17_tzif", "c17_posix", "c17_offset", "c18_designation"], kani_thorough=[],
         design_ref="DESIGN.md section 4, C17",
         level_text="TZif part only. Proof (loop-free, full domain): the 44-byte TZif header parser and all block-length computations never panic and return exact products or Err on overflow. Bounded stand-ins (bounds stated in evidence.coverage.bounded, never counted as proved): the transition-type and local-time-type block parsers on 2 records. 'A time zone built from accepted data answers every lookup without panicking' is the Verus obligations of the tzif and posix units (tables of any length, every rule) under the well-formedness that the block parsers establish (type indices < number of types, offsets in range). NOT decided: Temporal/friendly/RFC 2822/strptime/offset/RFC 9557/POSIX-TZ text parsers, 'work proportional to input'.",
     ),
